@@ -18,3 +18,85 @@ Definition children_count (n : node) : nat :=
   | NSeq _ els => length els
   | NSet _ els => length els
   end.
+
+(* ======== document-level vocabulary (C09_create_frame / _resolves / _pads_document) ======== *)
+From YP Require Import Searches Mutate Create.
+
+(* [embeds d d']: the old document is embedded in the new one - every node of d
+   is still there, at its place, with its identity, anchor, tag and scalar
+   value; containers may only have gained children AFTER the ones they had. *)
+Inductive embeds : node -> node -> Prop :=
+  | emb_leaf : forall i v, embeds (NLeaf i v) (NLeaf i v)
+  | emb_map : forall i kvs kvs' new,
+      Forall2 (fun kv kv' => fst kv' = fst kv /\ embeds (snd kv) (snd kv')) kvs kvs' ->
+      embeds (NMap i kvs) (NMap i (kvs' ++ new))
+  | emb_seq : forall i els els' new,
+      Forall2 embeds els els' -> embeds (NSeq i els) (NSeq i (els' ++ new))
+  | emb_set : forall i els new, embeds (NSet i els) (NSet i (els ++ new)).
+
+(* How one segment of a straight path is read at a node (the Doc.ref it
+   denotes): a key of a mapping, an index of a sequence (a key spelled like an
+   integer is an index; a negative index counts from the end), a member of a
+   set. *)
+Definition seg_int (s : seg) : option Z :=
+  match s with SIdx z => Some z | SKey k _ => py_int k end.
+
+Definition seg_ref (n : node) (s : seg) : option ref :=
+  match n, s with
+  | NMap _ _, SKey k _ => Some (RKey (PStr k))
+  | NSeq _ els, _ =>
+      match seg_int s with
+      | Some z =>
+          if (0 <=? z)%Z then Some (RIdx (Z.to_nat z))
+          else if (0 <=? z + Z.of_nat (length els))%Z then Some (RIdx (Z.to_nat (z + Z.of_nat (length els))))
+          else None
+      | None => None
+      end
+  | NSet _ _, SKey k _ => Some (RMember (PStr k))
+  | _, _ => None
+  end.
+
+Definition seg_child (n : node) (s : seg) : option node :=
+  match seg_ref n s with Some r => child n r | None => None end.
+
+(* walking the path's keys / indexes with Doc.child (= Doc.lookup along the refs the segments denote) *)
+Fixpoint resolve (n : node) (segs : list seg) : option node :=
+  match segs with
+  | [] => Some n
+  | s :: rest => match seg_child n s with Some c => resolve c rest | None => None end
+  end.
+
+(* GUARD of the creation theorems: something is to be created (the path does
+   not exist completely), the existing prefix does not run into a null (known
+   finding F10b) and the missing tail does not start below a set (known finding
+   F25: the value of a set member is the member itself). *)
+Definition is_null (n : node) : bool := match n with NLeaf _ PNone => true | _ => false end.
+
+Fixpoint creates (n : node) (segs : list seg) : bool :=
+  match segs with
+  | [] => false
+  | s :: rest =>
+      match seg_child n s with
+      | Some c => negb (is_null c) && creates c rest
+      | None => negb (is_set n)
+      end
+  end.
+
+(* Padding only up to the requested index, along the whole path: walking the
+   path in the NEW document, every sequence in which the requested element did
+   not exist before (a sequence that was grown, or a new one) has exactly
+   index + 1 elements now. *)
+Fixpoint padded_ok (old : option node) (new : node) (segs : list seg) : bool :=
+  match segs with
+  | [] => true
+  | s :: rest =>
+      match seg_child new s with
+      | None => false
+      | Some c' =>
+          let oc := match old with Some n => seg_child n s | None => None end in
+          (match new, seg_int s, oc with
+           | NSeq _ els', Some z, None => (Z.of_nat (length els') =? z + 1)%Z
+           | _, _, _ => true
+           end) && padded_ok oc c' rest
+      end
+  end.
